@@ -827,3 +827,13 @@ V('c19-fast-path-known-type', 'C19', 'C19.CASCADE', NM,
   "    if len(type_) > 256:\n        # https://datatracker.ietf.org/doc/html/rfc6763#section-7.2\n        raise BadTypeInNameException(\"Full name (%s) must be > 256 bytes\" % type_)\n    if type_.count('.') == 3 and type_.startswith('_') and type_.endswith(_TCP_PROTOCOL_LOCAL_TRAILER):\n        return type_\n")
 V('c19-hyphen-check-dropped', 'C19', 'C19.CASCADE', NM,
   "        if '--' in test_service_name:\n            raise BadTypeInNameException(\"Service name (%s) must not contain '--'\" % test_service_name)\n\n", "")
+
+V('c19-charset-only-strict', 'C19', 'C19.TABLE', NM,
+  "        if not allowed_characters_re.search(test_service_name):", "        if strict and not allowed_characters_re.search(test_service_name):", names=['charset'])
+V('c19-letter-check-inverted', 'C19', 'C19.TABLE', NM,
+  "        if not _HAS_A_TO_Z.search(test_service_name):", "        if strict and not _HAS_A_TO_Z.search(test_service_name) and len(test_service_name) > 1:", names=['has-letter'])
+V('c19-control-check-skipped-when-short', 'C19', 'C19.TABLE', NM,
+  "        if _HAS_ASCII_CONTROL_CHARS.search(remaining[0]):", "        if length > 8 and _HAS_ASCII_CONTROL_CHARS.search(remaining[0]):")
+V('c19-twin-checks-merged', 'C19', 'C19.TABLE', NM,
+  "        if '--' in test_service_name:\n            raise BadTypeInNameException(\"Service name (%s) must not contain '--'\" % test_service_name)\n\n        if '-' in (test_service_name[0], test_service_name[-1]):\n            raise BadTypeInNameException(\n                \"Service name (%s) may not start or end with '-'\" % test_service_name\n            )",
+  "        if '--' in test_service_name or '-' in (test_service_name[0], test_service_name[-1]):\n            raise BadTypeInNameException(\"Service name (%s) has a misplaced '-'\" % test_service_name)", expect='silent')
